@@ -102,6 +102,17 @@ def scene_rows(kind):
                 rows.append(['a', t, 1000, 1])
             rows.append(['a', t, 4000 + (i % 2), 2 if kind == 'msabuf' else 1])
         return rows, {'MSA': 3500, 'MSA_HIT_BUFFER': 1500, 'MAX_HITS_OKTA0': 1}
+    if kind == 'mergeonly':
+        # decks at 1000 and 1230 ft sliced apart and merged by the grouping (230 < 250 ft), a sparse deck at 1950 ft; nothing is split
+        rows = []
+        for c in ('a', 'b'):
+            for k in range(40):
+                t = -30.0 * (39 - k)
+                jit = (k * 7) % 5 * 4 - 8
+                rows.append([c, t, (1000 if (k + (c == 'b')) % 2 == 0 else 1230) + jit, 1])
+                if k % 3 == 0:
+                    rows.append([c, t, 1950 + 2 * jit, 2])
+        return rows, {}
     if kind == 'twodecks':          # the scene on which the pinned tree let a refused find_groups rewrite group_id
         rows = [['a', -15.0 * i, 2400 + (i % 3), 1] for i in range(40)] + [['a', -15.0 * i, 2600 + (i % 3), 2] for i in range(40)]
         return rows, {}
@@ -110,11 +121,12 @@ def scene_rows(kind):
 
 def run(out, tier, seed):
     rng = random.Random(seed + 14)
-    mcs, walks_by_ng = [], {}
+    mcs, walks_by_ng, cover_by_ng = [], {}, {}
     for ng in ('some', 'zero'):
         stats, nodes, edges, init = stage_graph(ng)
         mcs.append(stats)
         walks = edge_cover_walks(nodes, edges, init)
+        cover_by_ng[ng] = {tuple(w) for w in walks}
         maxlen = 3 if tier == 'quick' else 4
         for n in range(1, maxlen + 1):
             walks += [list(w) for w in itertools.product(OPS, repeat=n)]
@@ -129,13 +141,15 @@ def run(out, tier, seed):
                 seen.add(k)
                 uniq.append(w)
         walks_by_ng[ng] = uniq
-    scenes_ = [('mergesplit', 'some'), ('twodecks', 'some'), ('simple', 'some'), ('msabuf', 'some'), ('msaonly', 'some'), ('allnan', 'zero')]
+    scenes_ = [('mergesplit', 'some'), ('mergeonly', 'some'), ('twodecks', 'some'), ('simple', 'some'), ('msabuf', 'some'), ('msaonly', 'some'), ('allnan', 'zero')]
     descs = []
     for kind, ng in scenes_:
         rows, prms = scene_rows(kind)
         ws = walks_by_ng[ng]
-        if tier == 'quick' and kind in ('twodecks', 'simple', 'msabuf', 'msaonly'):
-            ws = [w for w in ws if len(w) <= 2] + rng.sample([w for w in ws if len(w) > 2], 250)
+        if tier == 'quick' and kind in ('twodecks', 'simple', 'msabuf', 'msaonly', 'mergeonly'):
+            # always: every edge of the call-order machine (shortest path + the edge) and every sequence up to length 2
+            keep = [w for w in ws if len(w) <= 2 or tuple(w) in cover_by_ng[ng]]
+            ws = keep + rng.sample([w for w in ws if not (len(w) <= 2 or tuple(w) in cover_by_ng[ng])], 200)
         for i, w in enumerate(ws):
             descs.append({'family': 'F6walk', 'name': f'walk:{kind}:{i}', 'rows': rows, 'prms': prms, 'indomain': True,
                           'with_canon': True, 'ops': [['construct', '']] + [list(o) for o in w], 'scene': kind})
@@ -149,6 +163,9 @@ def run(out, tier, seed):
     ms = [t for t in traces if t['_desc']['scene'] == 'mergesplit']
     if not all(t['canon']['merged'] and t['canon']['split'] for t in ms):
         raise fw.Machinery('the merging+splitting scene did not merge and split in the canonical run')
+    mo = [t for t in traces if t['_desc']['scene'] == 'mergeonly']
+    if not all(t['canon']['merged'] and not t['canon']['split'] for t in mo):
+        raise fw.Machinery('the merge-only scene did not merge without splitting in the canonical run')
     verdicts, stats = fw.judge_traces(out, traces, ['C14_'])
     nrefused = sum(1 for t in traces for e in t['events'] if e['res'] == 'exc')
     merged = sum(1 for t in traces[:1] for e in t['events'] if e['op'] == 'find_groups' and e['taps']['g0'] != e['taps']['g1'])
